@@ -8,6 +8,7 @@ import drive
 import env
 from fakes import MISSING, World
 from oracles import strict_eq
+from proto import Other
 
 
 def walk_nodes(ns, obj, path=()):
@@ -160,7 +161,14 @@ def unit_c18_attr(args):
                     bad("the nested dict at depth %d of a %s is a %s" % (depth, cls.__name__, type(a).__name__), "family")
                     continue
                 inst_attrs = set(vars(a))
-                eligible = [k for k in plain + odd + ["_under", "zeta"] if k not in cls._PROTECTED_KEYS and not k.startswith("__")
+                # plus names made up at random (underscores in front and behind, digits, camel case)
+                words = ["repr", "html", "display", "ipython", "mimebundle", "json", "latex", "cache", "lock", "data",
+                         "root", "parent", "sync", "load", "save", "buffer", "filename", "Name", "x1", "get", "keys"]
+                made = []
+                for _ in range(14):
+                    w = "_".join(rng.sample(words, rng.choice([1, 1, 2])))
+                    made.append("_" * rng.choice([0, 1, 1]) + w + "_" * rng.choice([0, 0, 1, 2]))
+                eligible = [k for k in plain + odd + made + ["_under", "zeta"] if k not in cls._PROTECTED_KEYS and not k.startswith("__")
                             and k not in class_attrs and k not in inst_attrs]
                 # ---- eligible keys: attribute form == item form
                 for k in eligible:
@@ -350,4 +358,90 @@ def unit_c18_routes(args):
     except Exception:  # noqa: BLE001
         drive.reset_class_state(ns)
         return dict(kind="corr", fam=fam_index, seed=seed, profile="c18/routes", crash=traceback.format_exc())
+    return res
+
+
+def unit_c11_foreign(args):
+    """C11 through a transplanted child: a synced collection of ANOTHER family is stored into the
+    collection; afterwards no entry point of the nested children lets in what the ROOT's family
+    forbids (dotted keys under an attribute-access root, non-string keys, non-JSON leaves)"""
+    fam_index, seed = args
+    ns = env.load()
+    fam = ns.families[fam_index]
+    res = dict(kind="oracle", fam=fam_index, seed=seed, profile="c11/foreign", steps=0, stats={}, violations=[])
+    n = 0
+    try:
+        drive.reset_class_state(ns)
+        import os
+        from oracles import fam_forbidden
+        with drive.Scratch() as tmp:
+            world = World(ns, fam, tmp)
+            others = [f for f in ns.families if f.index != fam_index and f.store == "json"]
+            for of in others:
+                os.makedirs(tmp + "_o%d" % of.index, exist_ok=True)
+                ow = World(ns, of, tmp + "_o%d" % of.index)
+                src_d = ow.open(True, 7, {"s": {"k": 1, "in": {"z": [1]}}, "rows": [{"a": 1}, [2]]})
+                src_l = ow.open(False, 8, [{"a": {"b": 1}}, [{"c": 2}]])
+                x = world.open(True, 0)
+                x.reset({})
+                x["s"] = src_d["s"]
+                x["rows"] = src_d["rows"]
+                x["whole"] = src_d
+                x["lst"] = src_l
+                bads = [("nonstr", {1: "v"}), ("other", Other(1))]
+                if fam.attr:
+                    bads.append(("dot", {"a.b": 1}))
+                targets = [("x['s']", x["s"]), ("x['s']['in']", x["s"]["in"]), ("x['rows'][0]", x["rows"][0]),
+                           ("x['whole']['s']", x["whole"]["s"]), ("x['lst'][0]['a']", x["lst"][0]["a"])]
+                lists = [("x['rows']", x["rows"]), ("x['lst'][1]", x["lst"][1]), ("x['s']['in']['z']", x["s"]["in"]["z"])]
+                for kind, bad in bads:
+                    for tname, t in targets:
+                        attempts = [("setitem", lambda t=t, bad=bad: t.__setitem__("nk", bad)),
+                                    ("update", lambda t=t, bad=bad: t.update({"nk": bad})),
+                                    ("setdefault", lambda t=t, bad=bad: t.setdefault("nk2", bad))]
+                        if isinstance(bad, dict):
+                            k0 = next(iter(bad))
+                            attempts += [("setitem-key", lambda t=t, k0=k0: t.__setitem__(k0, 1)),
+                                         ("update-pairs", lambda t=t, k0=k0: t.update([(k0, 1)]))]
+                        for aname, fn in attempts:
+                            n += 1
+                            try:
+                                fn()
+                                accepted = True
+                            except (TypeError, ValueError):
+                                accepted = False
+                            if accepted and not res["violations"]:
+                                res["violations"].append(dict(
+                                    props=["C11", "C18"], fam=fam.short, kind="c11f", sig="C11:foreign", ops=None,
+                                    msg="after storing a %s collection into a %s, %s.%s accepted forbidden data (%s): %r" % (
+                                        of.short, fam.short, tname, aname, kind, bad),
+                                    extra=dict(fam_index=fam_index, seed=seed)))
+                    for tname, t in lists:
+                        for aname, fn in [("append", lambda t=t, bad=bad: t.append(bad)), ("extend", lambda t=t, bad=bad: t.extend([bad])),
+                                          ("insert", lambda t=t, bad=bad: t.insert(0, bad)), ("iadd", lambda t=t, bad=bad: t.__iadd__([bad]))]:
+                            n += 1
+                            try:
+                                fn()
+                                accepted = True
+                            except (TypeError, ValueError):
+                                accepted = False
+                            if accepted and not res["violations"]:
+                                res["violations"].append(dict(
+                                    props=["C11", "C18"], fam=fam.short, kind="c11f", sig="C11:foreign", ops=None,
+                                    msg="after storing a %s collection into a %s, %s.%s accepted forbidden data (%s): %r" % (
+                                        of.short, fam.short, tname, aname, kind, bad),
+                                    extra=dict(fam_index=fam_index, seed=seed)))
+                mem, disk = x(), world.read(0)
+                for where, data in (("memory", mem), ("backend", disk)):
+                    badp = fam_forbidden(fam, data) if data is not MISSING else None
+                    if badp and not res["violations"]:
+                        res["violations"].append(dict(props=["C11"], fam=fam.short, kind="c11f", sig="C11:foreign", ops=None,
+                                                      msg="forbidden item %s reached %s through a transplanted child" % (badp, where),
+                                                      extra=dict(fam_index=fam_index, seed=seed)))
+        drive.reset_class_state(ns)
+        res["steps"] = n
+        res["stats"] = {"attempts": n}
+    except Exception:  # noqa: BLE001
+        drive.reset_class_state(ns)
+        return dict(kind="oracle", fam=fam_index, seed=seed, profile="c11/foreign", crash=traceback.format_exc())
     return res
